@@ -286,6 +286,24 @@ func runC13(c *ShardCtx) {
 			x.call([]byte(sb.String()), []string{"-support-left-recursion"}, fmt.Sprintf("dense first-call graph n=%d", n))
 		}
 	}
+	// (h) code block texts through the BUILDER: every body of <= 2 items of C03's code block lexer
+	// family (empty, blank, a lone newline, braces in strings / runes / comments, nested groups) as
+	// action, predicate and state block; no flag and all flags
+	for bi, body := range codeBodies(2) {
+		idx++
+		if !c.Mine(idx) {
+			continue
+		}
+		if c.Expired("family h") {
+			return
+		}
+		if bi%50 == 0 {
+			c.Res.Grammars++
+		}
+		text := []byte("{\npackage p\n}\nA <- \"a\" " + body + " &" + body + " #" + body + " B\nB <- !" + body + " \"b\"\n")
+		x.build(text, 0)
+		x.build(text, 31)
+	}
 	// (a) valid texts x flag sets
 	leaves := []*peg.Expr{peg.Lit("a"), peg.LitI("b"), peg.Cls(false, true, "a-c", `\pL`), peg.Cls(true, false, "a"), peg.Cls(false, false), peg.Cls(false, false, "a-é"), peg.Cls(true, true, "!-ÿ", "Ā-Ȁ"), peg.Cls(false, true, "K", `\p{Lu}`), peg.Any(), peg.Ref("B"), peg.Ref("A"), peg.Ref("Undefined"),
 		peg.AndCode(1), peg.NotCode(2), peg.StateCode(3), peg.Throw("l"), peg.Lit("")}
